@@ -1130,8 +1130,14 @@ where
         if SEALED && chunks_rev.next() != Some(Word::one()) {
             return Err(CoderError::Frontend(()));
         }
-        for chunk in chunks_rev.rev() {
-            ans.bulk.write(chunk)?
+        for (num_written, chunk) in chunks_rev.rev().enumerate() {
+            if let Err(err) = ans.bulk.write(chunk) {
+                // Undo the partial write so that `ans` remains usable.
+                for _ in 0..num_written {
+                    core::mem::drop(ans.bulk.read());
+                }
+                return Err(err.into());
+            }
         }
 
         Ok(Self { inner: ans })
